@@ -9,6 +9,7 @@ import Driver.Rpc
 import Driver.File
 import Driver.Ser
 import Driver.Http
+import Driver.Life
 /-! `driver <model>`: one op per stdin line, one canonical result line per op on stdout. -/
 
 structure Model where
@@ -24,6 +25,7 @@ def dispatch (model : String) : Option Model :=
   | "path" => some (pureModel Driver.Path.step)
   | "iov" => some ⟨Driver.Iov.St, {}, Driver.Iov.step⟩
   | "objcache" => some ⟨Driver.ObjCache.D, {}, Driver.ObjCache.step⟩
+  | "life" => some ⟨Driver.Life.D, {}, Driver.Life.step⟩
   | "http" => some ⟨Unit, (), Driver.Http.step⟩
   | "ser" => some ⟨Driver.Ser.St, {}, Driver.Ser.step⟩
   | "file" => some ⟨Driver.File.St, {}, Driver.File.step⟩
